@@ -271,6 +271,12 @@ theorem preCfiFrom_foldr (w : World) (a : Arch) (os : Os) (mask : Nat) (mem : Me
       exact ⟨heff, hl'⟩
     · exact ih (cfiFrame w a st e) 0 heff (fun h => by cases h) hrest
 
+/-- the frame pointer is a valid register of every frame found by CFI below an all-valid context -/
+theorem has_fp_validAfter (a : Arch) (c : Ctx) (h : c.valid = some (validAfter a)) :
+    c.has a a.fpName = true := by
+  cases a <;> simp [Ctx.has, h, validAfter, setInsert, Arch.calleeSaved, Arch.aliases, Arch.fpName,
+    Arch.spName, Arch.ipName]
+
 /-- **canonical STACK CFI chains of any depth**: the walk loop returns the frame it starts from and
     then exactly the expected frames — an instance of `walkLoop_chain_generic` -/
 theorem walkLoop_cfi_chain {env : Env} {a : Arch} {w : World} {mem : Mem} (harch : env.arch = a)
